@@ -162,7 +162,7 @@ ADDED = {
         "up in a solved problem; unknown terms at every position of four list contexts (with a genuine pair, with a transient term, alone); every per-axis mixture "
         "of N and N+2 as initial-array shape.",
  "C17": " Term by term: every grid instance of the linearity bound in length units 2^-7 / 2^3 with D x L^2 and u x L gives bit-identical diffusion / central / upwind "
-        "matrices, TVD vectors (3 limiters, all combinations of one flow direction per axis) and divergence, and a gradient scaled by 1/L. Also six extreme unit systems (lengths down to 2^-40, values down to 2^-70, everything x 2^50) for the term sets without the TVD correction.",
+        "matrices, TVD vectors (3 limiters, all combinations of one flow direction per axis) and divergence, and a gradient scaled by 1/L. Also six extreme unit systems (lengths down to 2^-40, values down to 2^-70, everything x 2^50) for the term sets without the TVD correction. Both the solver-level and the term-level relation are also evaluated on grids built with the (N, L) constructor form with a different cell width on every axis.",
  "C02": " Graded ladders are not end-symmetric (first cell wider than the last one, interior ratios vary).",
 }
 
